@@ -165,6 +165,8 @@ def check_case(ctx: Ctx, c: Dict[str, Any], k: int = 0) -> None:
         cmp_lin("SampleImage", o)
     # ... and with target points given w.r.t. every axes of the target grid (explicit 'axes')
     for ax in (Axes.WORLD, Axes.GRID, Axes.CUBE, Axes.CUBE_CORNERS):
+        if ax is Axes.CUBE_CORNERS and min(c["gt"]["n"]) == 1:
+            continue  # the corner-aligned cube of an axis with one sample has zero extent: its coordinates are undefined
         sm = guarded("SampleImage", lambda: SampleImage(target=gt, source=gs, axes=ax, sampling="linear", padding=pad), axes=ax.value)
         if sm is not None:
             pts = gt.points(ax).reshape(1, *tshape, D)
